@@ -187,6 +187,9 @@ type attemptOpts struct {
 	ObserveState bool // sample the reader state when the stop is injected
 	Chunks       []int
 	BlockHandler bool // handler blocked at the stop and released afterwards (cancel kinds)
+	// CancelBeforeError: the caller cancels its context after Stream has returned
+	// and before it asks Error() (a deferred cancel, a signal handler)
+	CancelBeforeError bool
 }
 
 // runAttempt performs one scripted attempt on the session. start is the
@@ -349,6 +352,9 @@ func runAttempt(c *core.Ctx, s *run.Session, l *hist.Layout, start hist.Pos, spe
 		return ob
 	}
 	errCalls := func() {
+		if o.CancelBeforeError {
+			s.Cancel()
+		}
 		if o.InlineError && ob.Res.InlineErrDone {
 			ob.Err1 = &run.ErrorResult{Err: ob.Res.InlineErr, Verdict: run.Returned}
 		} else if o.ErrorCalls >= 1 {
